@@ -245,5 +245,3 @@ Proof.
   - apply N.ltb_ge in E1. assert (n = 0) by lia. subst. rewrite N.mod_0_l by lia. cbn. reflexivity.
 Qed.
 
-Theorem discard_chunk_positive : (0 < discard_chunk)%Z.
-Proof. reflexivity. Qed.
